@@ -1,5 +1,11 @@
 package rules
 
+import (
+	"regexp"
+	"sort"
+	"strings"
+)
+
 func init() { register("C08", c08) }
 
 func c08(c *Ctx) {
@@ -21,6 +27,82 @@ func c08(c *Ctx) {
 	c.rowsErr("R08.8")
 	c.chunkAliasing("R08.9")
 	c.foreignKeysOnEveryConnection("R08.10")
+	c.conflictClausesLossless("R08.11", res)
 	R.Min("R08.1", "statement site evaluations", res.sites, 100)
 	R.Min("R08.3", "chunk-dependent statement sites", res.chunkSites, 12)
+}
+
+var conflictInsertRe = regexp.MustCompile("(?is)^\\s*(INSERT\\s+OR\\s+(IGNORE|REPLACE)|REPLACE)\\s+INTO\\s+[`\"]?([A-Za-z0-9_]+)[`\"]?\\s*\\(([^)]*)\\)")
+var onConflictRe = regexp.MustCompile("(?is)\\bON\\s+CONFLICT\\b")
+
+// conflictClausesLossless (R08.11): a statement that swallows a uniqueness conflict may only do so
+// where the conflicting row is necessarily identical to the one being inserted.
+func (c *Ctx) conflictClausesLossless(rule string, res *sqlResult) {
+	R := c.R
+	R.Explain(rule, "conflict clauses lose nothing: every INSERT OR IGNORE / OR REPLACE statement names exactly the columns of one uniqueness constraint of its table (primary key or unique index), and no other uniqueness constraint of the table lies inside the inserted columns — so a swallowed conflict means the stored row already equals the inserted one (set semantics, as in the relational model).  On a table with a non-key column, OR IGNORE silently keeps the old value and OR REPLACE silently deletes the old row (and, with foreign keys, its dependants), neither of which the model's insert does.  ON CONFLICT clauses are not used.  Statements of the one-time schema migrations are outside this rule (they are not operations of the db interface).")
+	n := 0
+	seen := map[string]bool{}
+	for _, st := range res.stmts {
+		if st.mig {
+			continue // one-time schema migrations copy rows out of the previous schema; they are not operations of the db interface
+		}
+		if onConflictRe.MatchString(st.text) {
+			key := c.name(st.fn) + "|ON CONFLICT"
+			if !seen[key] {
+				seen[key] = true
+				R.Check(false, rule, key, st.pos, "", "statement uses an ON CONFLICT clause, which this rule does not judge: "+trunc(st.text, 120))
+			}
+			continue
+		}
+		m := conflictInsertRe.FindStringSubmatch(st.text)
+		if m == nil {
+			continue
+		}
+		table := m[3]
+		var cols []string
+		for _, col := range strings.Split(m[4], ",") {
+			cols = append(cols, strings.Trim(strings.TrimSpace(col), "`\""))
+		}
+		sort.Strings(cols)
+		key := c.name(st.fn) + "|" + strings.ToUpper(strings.Join(strings.Fields(m[1]), " ")) + " " + table + "(" + strings.Join(cols, ",") + ")"
+		if seen[key] {
+			continue
+		}
+		seen[key] = true
+		n++
+		colset := map[string]bool{}
+		for _, x := range cols {
+			colset[x] = true
+		}
+		exact := false
+		why := ""
+		for _, k := range res.db.UniqueKeys(table) {
+			inside := true
+			for _, x := range k {
+				if !colset[x] {
+					inside = false
+				}
+			}
+			if !inside {
+				continue
+			}
+			if len(k) == len(cols) {
+				exact = true
+			} else {
+				why = "uniqueness constraint (" + strings.Join(k, ",") + ") is narrower than the inserted columns: a conflict on it discards or replaces differing values of the other columns"
+			}
+		}
+		if why == "" && !exact {
+			why = "the inserted columns are not the columns of a uniqueness constraint of " + table
+		}
+		R.Check(why == "", rule, key, st.pos, "inserted columns = one uniqueness constraint", why)
+	}
+	R.Min(rule, "conflict-swallowing statements judged", n, 4)
+}
+
+func trunc(s string, n int) string {
+	if len(s) > n {
+		return s[:n] + "..."
+	}
+	return s
 }
